@@ -1171,14 +1171,21 @@ impl LineBuffer {
             Movement::ForwardWord(n, at, word_def) => self
                 .next_word_pos(self.pos, at, word_def, n)
                 .map(|pos| (self.pos, pos)),
-            Movement::LineUp(n) => self.n_lines_up(n),
-            Movement::LineDown(n) => self.n_lines_down(n),
+            // (`end` is just after the line break of the last line)
+            Movement::LineUp(n) => self.n_lines_up(n).map(|(start, _)| (start, self.pos)),
+            Movement::LineDown(n) => self.n_lines_down(n).map(|(_, end)| {
+                if end > self.pos && self.buf[..end].ends_with('\n') {
+                    (self.pos, end - 1)
+                } else {
+                    (self.pos, end)
+                }
+            }),
         };
         let amount = usize::from(amount);
         let (start, end) = pair.unwrap_or((self.pos, self.pos));
         let start = self.buf[..start].rfind('\n').map_or(0, |pos| pos + 1);
         let end = self.buf[end..]
-            .rfind('\n')
+            .find('\n')
             .map_or_else(|| self.buf.len(), |pos| end + pos);
         let mut index = start;
         if dedent {
